@@ -20,9 +20,19 @@ def cmpFn : CmpOp → Value → Value → Outcome Bool
 theorem onInt_eq_onOrdering (op : CmpOp) (x y : Int) :
     op.onInt x y = op.onOrdering (compare x y) := by
   rcases Int.lt_trichotomy x y with h | h | h
-  · rw [Int.compare_eq_lt.mpr h]; cases op <;> simp [CmpOp.onInt, CmpOp.onOrdering] <;> omega
-  · rw [Int.compare_eq_eq.mpr h]; cases op <;> simp [CmpOp.onInt, CmpOp.onOrdering] <;> omega
-  · rw [Int.compare_eq_gt.mpr h]; cases op <;> simp [CmpOp.onInt, CmpOp.onOrdering] <;> omega
+  · rw [Int.compare_eq_lt.mpr h]
+    cases op <;> simp only [CmpOp.onInt, CmpOp.onOrdering] <;>
+      first | (show _ = true; simp; omega) | (show _ = false; simp; omega)
+  · rw [Int.compare_eq_eq.mpr h]
+    cases op <;> simp only [CmpOp.onInt, CmpOp.onOrdering] <;>
+      first | (show _ = true; simp; omega) | (show _ = false; simp; omega)
+  · rw [Int.compare_eq_gt.mpr h]
+    cases op <;> simp only [CmpOp.onInt, CmpOp.onOrdering] <;>
+      first | (show _ = true; simp; omega) | (show _ = false; simp; omega)
+
+theorem beq_eq_decide' {α : Type} [BEq α] [LawfulBEq α] [DecidableEq α] (a b : α) :
+    (a == b) = decide (a = b) := by
+  rw [Bool.eq_iff_iff]; simp
 
 theorem onNat_eq_onInt (op : CmpOp) (x y : Nat) : op.onNat x y = op.onInt (x : Int) (y : Int) := by
   cases op <;> simp [CmpOp.onInt, CmpOp.onNat]
@@ -71,18 +81,21 @@ theorem equals_int (l r : Value) (x y : Int)
     equals l r = decide (x = y) := by
   cases l <;> simp [numVal] at hl <;> cases r <;> simp [numVal] at hr <;> subst hl hr
   all_goals rename_i a b
-  · simp [equals, disc, beq, Int64.toInt_inj]
+  · simp [equals, disc, beq, beq_eq_decide', Int64.toInt_inj]
   · have h1 := Int64.toInt_lt a
     have h2 := Int64.le_toInt a
     have h3 := UInt64.toNat_lt b
-    simp only [equals]
-    (repeat' split) <;> simp only [Bool.false_eq, decide_eq_false_iff_not, beq_eq_decide, decide_eq_decide] <;> omega
+    simp only [equals, beq_eq_decide']
+    (repeat' split) <;>
+      simp only [Bool.false_eq, decide_eq_false_iff_not, decide_eq_decide] <;> omega
   · have h1 := Int64.toInt_lt b
     have h2 := Int64.le_toInt b
     have h3 := UInt64.toNat_lt a
-    simp only [equals]
-    (repeat' split) <;> simp only [Bool.false_eq, decide_eq_false_iff_not, beq_eq_decide, decide_eq_decide] <;> omega
-  · simp [equals, disc, beq, ← UInt64.toNat_inj]
+    simp only [equals, beq_eq_decide']
+    (repeat' split) <;>
+      simp only [Bool.false_eq, decide_eq_false_iff_not, decide_eq_decide] <;> omega
+  · simp only [equals, disc, beq, beq_self_eq_true, if_true]
+    rw [beq_eq_decide', decide_eq_decide, ← UInt64.toNat_inj]; omega
 
 /-! ### `equals` is `==` -/
 
